@@ -815,18 +815,31 @@ class NumberOrderedForm(Operator):
         for powers, coeff in self.args[1]:
             # Replace any placeholders with NumberOperator instances
             coeff = coeff.xreplace(self._placeholder_to_number_operator)
+            # SymPy regards some functions of operators, e.g. Abs(N), as commuting
+            # scalars and would move them in front of the creation operators.
+            keep_order = any(
+                sub.is_commutative and sub.has(NumberOperator)
+                for sub in sympy.preorder_traversal(coeff)
+            )
+            annihilators = []
             term = coeff
             for op, power in zip(reversed_operators, reversed(powers)):
                 if not power > Zero:
                     continue
                 # Annihilation operator (positive power)
                 term = term * op**power
+                annihilators.append(op**power)
 
+            creators = []
             for op, power in zip(reversed_operators, reversed(powers)):
                 if not power < Zero:
                     continue
                 # Creation operator (negative power)
                 term = op.adjoint() ** (-power) * term
+                creators.insert(0, op.adjoint() ** (-power))
+
+            if keep_order and creators:
+                term = sympy.Mul(*creators, coeff, *annihilators, evaluate=False)
 
             result += term
 
